@@ -4,7 +4,7 @@
    "<default>"), every Source.Local predicate, every configuration and every key order.  coq/gen/C27/PropsGen.v
    instantiates them with the table and source order TRANSLATED from the Go code on every run. *)
 From Coq Require Import List NArith Bool Permutation.
-From Verif.C27 Require Import Model Spec Proofs.
+From Verif.C27 Require Import Model Spec Proofs ProofsSorted ProofsCalls.
 Import ListNotations.
 Open Scope N_scope.
 
@@ -78,6 +78,124 @@ Print Assumptions c27_local_only_ignored_from_datastore.
 Print Assumptions c27_order_independent.
 Print Assumptions c27_local_only_step_skipped.
 
+(* ---- the SORTED variant (fixes/C27-deterministic-key-order.patch; the code now in the tree) ---- *)
+Section Sorted.
+  Variables K R V : Type.
+  Variable keqb : K -> K -> bool.
+  Variable lower : K -> K.
+  Variable is_none : R -> bool.
+  Variable known : K -> option (pmeta K V).
+  Variable parse : K -> R -> option V.
+  Variable src_local : N -> bool.
+  Variable kleb : K -> K -> bool.
+  Variable srcs : list N.
+  Hypothesis keqb_eq : forall a b, keqb a b = true <-> a = b.
+  Hypothesis known_name : forall lk m, known lk = Some m -> lower (pm_name m) = lk.
+  Hypothesis srcs_desc : sdesc srcs.
+  Hypothesis srcs_pos : forall s, In s srcs -> 0 < s.
+  (* the key order (Go's < on strings) is a total order *)
+  Hypothesis kleb_total : forall a b, kleb a b = true \/ kleb b a = true.
+  Hypothesis kleb_antisym : forall a b, kleb a b = true -> kleb b a = true -> a = b.
+  Hypothesis kleb_trans : forall a b c, kleb a b = true -> kleb b c = true -> kleb a c = true.
+  Notation resolve' := (resolve keqb kleb lower is_none known parse srcs src_local).
+
+  (* ALL inputs, including several case-variant spellings of one parameter in one source: for every permutation of the
+     entries of every source (= every Go map iteration order; a map holds each exact key once) resolve returns the SAME
+     result: the same error outcome and, on success, identical fields, raw values and nameToSource.  Both settings of
+     `fixed`. *)
+  Theorem c27_order_independent_sorted : forall fixed (c c' : cfg K R),
+    (forall s, NoDup (map fst (src_kvs c s))) -> (forall s, Permutation (src_kvs c s) (src_kvs c' s)) ->
+    resolve' fixed true c = resolve' fixed true c'.
+  Proof. exact (order_independent_sorted K R V keqb lower is_none known parse src_local kleb srcs kleb_total kleb_antisym kleb_trans). Qed.
+
+  (* Which spelling wins: among the entries of the deciding source that name the parameter (up to case), the one whose
+     name is LAST in the key order (byte order) gives the value. *)
+  Theorem c27_sorted_last_spelling_wins : forall fixed (c : cfg K R) st lk m s k rv,
+    (forall s, NoDup (map fst (src_kvs c s))) ->
+    resolve' fixed true c = Some st ->
+    known lk = Some m -> deciding keqb lower srcs src_local c m = Some s -> eligible src_local m s = true ->
+    In (k, rv) (src_kvs c s) -> sets_param keqb lower m (k, rv) = true ->
+    (forall k' rv', In (k', rv') (src_kvs c s) -> sets_param keqb lower m (k', rv') = true -> kleb k' k = true) ->
+    Some (effective keqb st m) = value_of is_none parse m rv.
+  Proof. exact (sorted_last_spelling_wins K R V keqb lower is_none known parse src_local kleb srcs keqb_eq known_name
+                  srcs_desc srcs_pos kleb_total kleb_antisym kleb_trans). Qed.
+
+  (* The sorted variant is the unsorted loop run on the configuration with every source's entries sorted, so
+     c27_highest_source_decides, c27_shadowed_irrelevant and c27_local_only_ignored_from_datastore apply to it. *)
+  Theorem c27_sorted_is_unsorted_on_sorted_cfg : forall fixed (c : cfg K R),
+    resolve' fixed true c = resolve' fixed false (sortcfg K R kleb c)
+    /\ forall s, src_kvs (sortcfg K R kleb c) s = sort_kvs kleb (src_kvs c s).
+  Proof.
+    intros. split.
+    - exact (resolve_sorted_as_unsorted K R V keqb lower is_none known parse src_local kleb srcs fixed c).
+    - exact (src_kvs_sortcfg K R kleb c).
+  Qed.
+End Sorted.
+Print Assumptions c27_order_independent_sorted.
+Print Assumptions c27_sorted_last_spelling_wins.
+Print Assumptions c27_sorted_is_unsorted_on_sorted_cfg.
+
+(* ---- histories of UpdateFrom / UpdateFromConfigUpdate calls on one Config ---- *)
+Section Calls.
+  Variables K R V : Type.
+  Variable keqb : K -> K -> bool.
+  Variable kleb : K -> K -> bool.
+  Variable lower : K -> K.
+  Variable is_none : R -> bool.
+  Variable is_empty : R -> bool.
+  Variable known : K -> option (pmeta K V).
+  Variable parse : K -> R -> option V.
+  Variable srcs : list N.
+  Variable src_local : N -> bool.
+  Variable veqb : V -> V -> bool.
+  Hypothesis veqb_refl : forall v, veqb v v = true.
+  Notation run_calls' := (run_calls keqb kleb lower is_none is_empty known parse srcs src_local veqb).
+  Notation resolve' := (resolve keqb kleb lower is_none known parse srcs src_local).
+
+  (* Config.Err after each call = Config.Err before OR an error returned by some call so far; once set it stays set. *)
+  Theorem c27_config_err_sticky : forall fixed sorted us (c : cfg K R) prev cerr,
+    map (@k_cerr K R V) (run_calls' fixed sorted c prev cerr us)
+    = scan_or cerr (map (@k_err K R V) (run_calls' fixed sorted c prev cerr us))
+    /\ Forall (fun k => k_cerr k = true) (run_calls' fixed sorted c prev true us).
+  Proof.
+    intros. split.
+    - exact (cerr_scan K R V keqb kleb lower is_none is_empty known parse srcs src_local veqb fixed sorted us c prev cerr).
+    - exact (cerr_sticky K R V keqb kleb lower is_none is_empty known parse srcs src_local veqb fixed sorted us c prev).
+  Qed.
+
+  (* `changed`: a call that leaves the raw configuration as it is (the ConfigUpdate message carrying what Felix already
+     has; the same datastore config again) reports no changed field and no error, after a successful resolve. *)
+  Theorem c27_unchanged_config_reports_no_change : forall fixed sorted (c : cfg K R) st cerr u t,
+    resolve' fixed sorted c = Some st -> apply_upd is_empty c u = c ->
+    match run_calls' fixed sorted c (Some st) cerr (u :: t) with
+    | k :: _ => k_changed k = Some [] /\ k_err k = false /\ k_res k = Some st
+    | [] => False
+    end.
+  Proof. exact (unchanged_cfg_unchanged_fields K R V keqb kleb lower is_none is_empty known parse srcs src_local veqb veqb_refl). Qed.
+
+  Theorem c27_repeated_update_reports_no_change : forall fixed sorted (c : cfg K R) prev cerr u t st,
+    resolve' fixed sorted (apply_upd is_empty c u) = Some st ->
+    match run_calls' fixed sorted c prev cerr (u :: u :: t) with
+    | _ :: k2 :: _ => k_changed k2 = Some [] /\ k_err k2 = false
+    | _ => False
+    end.
+  Proof. exact (repeat_update_unchanged K R V keqb kleb lower is_none is_empty known parse srcs src_local veqb veqb_refl). Qed.
+
+  (* UpdateFromConfigUpdate replaces every source: the result of that call and of all later calls is a function of the
+     message (and the later calls) alone, whatever the Config held before. *)
+  Theorem c27_config_update_message_decides : forall fixed sorted (c1 c2 : cfg K R) p1 p2 e1 e2 msg t,
+    match run_calls' fixed sorted c1 p1 e1 (UAll msg :: t), run_calls' fixed sorted c2 p2 e2 (UAll msg :: t) with
+    | k1 :: r1, k2 :: r2 => k_res k1 = resolve' fixed sorted msg /\ k_res k1 = k_res k2 /\ k_err k1 = k_err k2
+                            /\ map (@k_res K R V) r1 = map (@k_res K R V) r2
+    | _, _ => False
+    end.
+  Proof. exact (config_update_decides K R V keqb kleb lower is_none is_empty known parse srcs src_local veqb). Qed.
+End Calls.
+Print Assumptions c27_config_err_sticky.
+Print Assumptions c27_unchanged_config_reports_no_change.
+Print Assumptions c27_repeated_update_reports_no_change.
+Print Assumptions c27_config_update_message_decides.
+
 From Coq Require Import String.
 Open Scope string_scope.
 (* ---- refutations on the faithful model of the PINNED code (fixed = false / sorted = false), by computation on a
@@ -119,3 +237,9 @@ Theorem c27_order_independent_refuted_unsorted :
   /\ t_value false true w_o1 (b "HealthHost") = t_value false true w_o2 (b "HealthHost").
 Proof. repeat split; try (vm_compute; reflexivity). apply perm_swap. Qed.
 Print Assumptions c27_order_independent_refuted_unsorted.
+
+(* non-vacuity of the sorted theorems: "healthhost" is after "HealthHost" in byte order, so its (invalid, non-fatal) value
+   decides: the default *)
+Example c27_sorted_winner_example :
+  t_value true true w_o1 (b "HealthHost") = Some (b "localhost") /\ t_value true true w_o2 (b "HealthHost") = Some (b "localhost").
+Proof. split; vm_compute; reflexivity. Qed.
